@@ -21,7 +21,7 @@ and had to supply a demonstration test that fails with the change and passes
 without it. Each was confirmed in the scratch worktree (existing suite passes,
 demonstration fails with / passes without the change), then applied to /repo,
 checked with `./check <id> quick`, and undone. Patch, demonstration and
-`meta.json` are kept under `/verif/seeded/<id>-<n>/`. {n} changes in fifteen
+`meta.json` are kept under `/verif/seeded/<id>-<n>/`. {n} changes in sixteen
 rounds (the later rounds came with a hint: files not yet touched, options and
 unusual API use, unusual broker behaviour, two application goroutines, faults during
 recovery and timers, effects of repetition over a longer session); {first}
